@@ -366,7 +366,7 @@ func RunC04(r *core.Run) {
 	r.Assume = []string{"a worker stuck on one case for 25 s is a hang suspect, confirmed by a 90 s single-case replay in a fresh process", "PField.Set / GetPField panics on caller-supplied inverted ranges are the documented contract and not exercised directly"}
 	corpus := loadCorpus()
 	// A: parser table under hostile bytes
-	nA := r.Pick(250000, 12000000)
+	nA := r.Pick(1500000, 30000000)
 	r.Stage("sweep/parsers", nA, func(w *core.Worker, idx int64) {
 		rr := core.NewRand(r.Seed, 0xC04, 1, uint64(idx))
 		p := Parsers[rr.Intn(len(Parsers))]
@@ -423,7 +423,7 @@ func RunC04(r *core.Run) {
 	stA.Exhaustive = true
 	stA.Space = esA.Desc() + " + CRLF X, through every table parser, every start offset 0..len, S1"
 	// B: non-incremental surface
-	nB := r.Pick(120000, 5000000)
+	nB := r.Pick(600000, 10000000)
 	r.Stage("sweep/functions", nB, func(w *core.Worker, idx int64) {
 		rr := core.NewRand(r.Seed, 0xC04, 2, uint64(idx))
 		var a, b []byte
@@ -453,7 +453,7 @@ func RunC04(r *core.Run) {
 		}
 	})
 	// B2: signatures on parsed and failed messages
-	r.Stage("sweep/signatures", r.Pick(60000, 2000000), func(w *core.Worker, idx int64) {
+	r.Stage("sweep/signatures", r.Pick(400000, 6000000), func(w *core.Worker, idx int64) {
 		rr := core.NewRand(r.Seed, 0xC04, 3, uint64(idx))
 		var in []byte
 		switch rr.Intn(3) {
@@ -505,7 +505,7 @@ func RunC04(r *core.Run) {
 	stC.Exhaustive = true
 	stC.Space = "every name of length 0..2 over all 256 byte values and of length 3 over 7-bit ASCII, for GetHdrType and GetMethodNo; SIPMethod/HdrT/URIScheme values 0..299"
 	// D: reuse histories on caller arrays
-	r.Stage("reuse-histories", r.Pick(60000, 3000000), func(w *core.Worker, idx int64) {
+	r.Stage("reuse-histories", r.Pick(500000, 10000000), func(w *core.Worker, idx int64) {
 		rr := core.NewRand(r.Seed, 0xC04, 4, uint64(idx))
 		reuseHistory(w, rr, corpus)
 		w.Nontrivial(uint64(idx)*0x9E3779B97F4A7C15 ^ r.Seed)
